@@ -160,6 +160,10 @@ def _server_main(conf, logp, slugs_file, ready):
             r.status_code = 404
         if kind == "groups404" and is_groups:
             r.status_code = 404
+        if kind == "user500" and not is_groups:
+            r.status_code = 500
+        if kind == "all403":
+            r.status_code = 403
         if kind == "badjson" and is_groups:
             def bad():
                 raise ValueError("No JSON object could be decoded")
